@@ -420,6 +420,7 @@ pub fn random_program(rng: &mut Rng, cfg: &GenConfig) -> Program {
     if cfg.upsampling && prog.frames.iter().any(|f| f.upsampling > 1 || f.ec_upsampling.iter().any(|&u| u > 1)) && rng.chance(1, 4) {
         prog.cw_mask = rng.range(1, 7) as u32;
     }
+    prog.fix_transforms();
     if !cfg.safe {
         // index-valued header fields pointing past what exists (own generator: see `colour`)
         let mut hrng = Rng::new(prog.cw_seed ^ 0x1DE7_0000_0001);
